@@ -7,7 +7,7 @@ shape), purity: nothing reachable from the compression entry points reads a cloc
 the environment or a thread id (T14), and multithreaded job boundaries are computed from
 byte counts only.  Not decided: bit-identity of two executions."""
 from ..facts import extract, Broken
-from ..ir import Program, walk, is_call, strip_casts, const_val
+from ..ir import Program, walk, is_call, strip_casts, const_val, err_name
 from ..report import Result
 from ..rules import reset, guards
 from ..rules.guards import cond_edges
@@ -717,6 +717,57 @@ def dictionary_validity_history_independent(prog, res):
     res.need(R, 2)
 
 
+def output_independent_of_room(prog, res):
+    """T14: the frame must not depend on the sizes of the output buffers.  Two shapes make it depend on them:
+    (a) a comparison of a result with ERROR(dstSize_tooSmall) whose matching side goes on WITHOUT returning that error: the
+        lack of room is turned into a compression decision (store the block raw); with ample room the same block is emitted
+        compressed;
+    (b) in the streaming compressor, a branch on the room left in the output (`oend - op` against ZSTD_compressBound) that
+        chooses between compressing directly from the caller's input and going through the input ring: the two routes cut
+        the blocks at different places."""
+    R = "T14.output-independent-of-room"
+    n = 0
+    for f in prog.all_functions():
+        if not f.file.startswith("lib/compress/"):
+            continue
+        for bid, cond, t, fl in f.branches():
+            c = f.resolve_x(cond)
+            tests = [y for y in f.walk_resolved(c) if y.get("k") == "bin" and y.get("op") in ("==", "!=") and
+                     any(err_name(z) == "dstSize_tooSmall" for z in f.walk_resolved(y))]
+            if not tests:
+                continue
+            n += 1
+            eq = tests[0]["op"] == "=="
+            side = t if eq else fl          # the side on which the result IS dstSize_tooSmall
+            reach = f.flow([(side, 0)])
+            # does that side lead to a return that is not the error itself?  (a literal 0, or a fall-through to later code)
+            cmpvars = {y.get("n") for x in (tests[0]["lhs"], tests[0]["rhs"]) for y in f.walk_resolved(x) if y.get("k") == "ref" and y.get("rk") in ("l", "sl", "p")}
+
+            def forwards(r):
+                e = strip_casts(f.resolve_x(r["e"]))
+                return e is not None and ((e.get("k") == "ref" and e.get("n") in cmpvars) or any(err_name(z) == "dstSize_tooSmall" for z in f.walk_resolved(e)))
+            # only the direct shape is claimed: the matching side returns the literal 0 that means "store this block raw".  (The
+            # super-block site falls through to the common raw-block code instead; no capacity-dependent frame could be produced
+            # through it in 3000 trials with ZSTD_c_targetCBlockSize, so it is counted but not reported.)
+            goes_on = any((b, i) in reach and not forwards(r) and const_val(strip_casts(f.resolve_x(r["e"]))) == 0 for b, i, r in f.returns() if r.get("e") is not None)
+            res.check(not goes_on, R, "%s:capacity-error-becomes-a-decision" % f.name, "%s:%s" % (f.file, c.get("l") or f.line),
+                      "a lack of output room is reported, not turned into a decision",
+                      "%s compares a result with ERROR(dstSize_tooSmall) and goes on when it matches (the block is stored raw instead): the frame depends on the "
+                      "size of the destination - ZSTD_compress2 of 38 bytes at level 6 gives a 44-byte frame in a large buffer and a different, valid 47-byte "
+                      "frame when dstCapacity is 47..51" % f.name)
+    res.check(n >= 2, R, "sites", "lib/compress", "%d comparison(s) with ERROR(dstSize_tooSmall)" % n, "comparisons with ERROR(dstSize_tooSmall) found: %d" % n)
+    g = prog.fn("ZSTD_compressStream_generic")
+    direct = g.call_roots("ZSTD_compressEnd_public")
+    room = [(bid, t) for bid, cond, t, fl in g.branches()
+            if any(is_call(y, "ZSTD_compressBound") for y in g.walk_resolved(g.resolve_x(cond)))]
+    dep = [e for e in room if any(d in g.flow([(e[1], 0)]) for d in direct)]
+    res.check(bool(direct) and not dep, R, "ZSTD_compressStream_generic:route-chosen-by-output-room", g.loc, "the compression route does not depend on the output room",
+              "ZSTD_compressStream_generic compresses directly from the caller's input when the output has room for ZSTD_compressBound(remaining input) and through "
+              "its input ring otherwise: level 1, windowLog 10, 2048 bytes e_continue then 37952 bytes e_end gives 12967 bytes with ample output room and 12966 "
+              "bytes with 1000-byte output buffers")
+    res.need(R, 4)
+
+
 def row_hash_is_salted(prog, res):
     """T9: the row-based match finder files positions under a SALTED hash (the salt changes with the context's history so that
     stale tags cannot match); every hash it computes for its own table must be salted, or positions inserted through one call
@@ -768,6 +819,7 @@ def run(tier):
     cycle_log_callers(prog, res)
     row_hash_is_salted(prog, res)
     dictionary_validity_history_independent(prog, res)
+    output_independent_of_room(prog, res)
     # a session reset drops what describes the caller's buffers of the abandoned session (re-submitted by flushStream/endStream)
     rs = prog.fn("ZSTD_CCtx_reset")
     wiped = any((x.get("k") == "call" and x.get("c") in ("memset", "__builtin_memset") and any(y.get("f") == "expectedInBuffer" for y in walk(x["a"][0]))) or
